@@ -13,6 +13,7 @@ SRCP = os.environ.get('VERIF_REPO', '/repo').rstrip('/') + '/src/'
 
 def main(argv):
     modname, obname, args_repr = argv[:3]
+    after_repr = argv[3] if len(argv) > 3 else None
     out = {'ok': None, 'detail': '', 'functions': []}
     try:
         mod = importlib.import_module(modname)
@@ -32,6 +33,13 @@ def main(argv):
                     out.update(ok=True, detail='precondition %r not met by the concrete arguments' % e)
                     break
             else:
+                if after_repr:
+                    # history replay: an earlier call of the same obligation in this process (what another symbolic path did
+                    # before) - its own verdict is irrelevant, only what it leaves behind on shared objects
+                    try:
+                        ob.fn(**ast.literal_eval(after_repr))
+                    except Exception:            # noqa: B902
+                        pass
                 sys.setprofile(prof)
                 try:
                     r = ob.fn(**args)
